@@ -535,3 +535,53 @@ Definition fine_init : fine := mkFine init [].
 (* where an event ended up: header or line of some published incident file *)
 Definition in_some_file (i : inc_st) (id : Z) : bool :=
   existsb (fun f => existsb (fun e => e_id e =? id) f) (i_files i).
+
+(* ---------------------------------------------------------------- what an immediate observer is handed *)
+(* Subscription.send is an immediate observer: add_event calls it synchronously, at the place the translated stage
+   order says (StImmediate), unless an earlier stage raised.  step_sends = the events handed to immediate observers by
+   one op, in order (the event itself, then the internal-error event that replaces a failed _msg). *)
+Definition imm_step (c : cfg) (sz : sizes_t) (e : event) (p : ae_acc * bool) (stg : add_stage) : ae_acc * bool :=
+  (add_stage_step c sz e (fst p) stg,
+   snd p || match stg with StImmediate => negb (x_raised (fst p)) | _ => false end).
+
+Definition immediate_sees (c : cfg) (sz : sizes_t) (b : bufs_t) (i : inc_st) (e : event) : bool :=
+  snd (fold_left (imm_step c sz e) add_event_stages (mkAe b i false false, false)).
+
+Definition msg_sends (c : cfg) (s : st) (e : event) : list event :=
+  if cmpZ threshold_drop_cmp (e_lvl e) (threshold_of (s_thr s) (e_fac e)) then []
+  else if immediate_sees c (s_sizes s) (s_bufs s) (s_inc s) e then [e] else [].
+
+Definition fallback_event (num id : Z) : event := mkEv num FAC_INTERNAL fallback_level true (fallback_id id).
+
+Definition step_sends (c : cfg) (s : st) (o : op) : list event :=
+  match o with
+  | Msg numo fac lvl ok reprok id =>
+    let '(num, seq') := match numo with Some n => (n, s_seq s) | None => next_num (s_seq s) end in
+    let s0 := mkSt seq' (s_sizes s) (s_thr s) (s_bufs s) (s_inc s) in
+    let '(s1, raised, _) := msg_inner c s0 (mkEv num fac lvl ok id) in
+    msg_sends c s0 (mkEv num fac lvl ok id) ++
+    (if raised && msg_catch_all && reprok then msg_sends c s1 (fallback_event num id) else [])
+  | MsgBad reprok id =>
+    let '(num, seq') := next_num (s_seq s) in
+    let s0 := mkSt seq' (s_sizes s) (s_thr s) (s_bufs s) (s_inc s) in
+    if msg_catch_all && reprok then msg_sends c s0 (fallback_event num id) else []
+  | _ => []
+  end.
+
+Fixpoint run_sends (c : cfg) (s : st) (ops : list op) : list event :=
+  match ops with
+  | [] => []
+  | o :: t => step_sends c s o ++ run_sends c (fst (step c s o)) t
+  end.
+
+Fixpoint segs_sends (s : st) (segs : list (cfg * list op)) : list event :=
+  match segs with
+  | [] => []
+  | (c, ops) :: t => run_sends c s ops ++ segs_sends (fst (run c s ops)) t
+  end.
+
+(* the events a Subscription's send() is called with by a schedule *)
+Definition sends_of (sops : list sop) : list Z := flat_map (fun o => match o with Send e => [e] | _ => [] end) sops.
+
+(* calls that leave the numbering to the logger (num= is a hook for replaying foreign events) *)
+Definition auto_only (o : op) : Prop := match o with Msg (Some _) _ _ _ _ _ => False | _ => True end.
